@@ -704,6 +704,14 @@ def text_cases(tier):
         for cmd, argv in (('php', ['php', 3, 2]), ('kcolor', ['kcolor', 2, 'complete', 3]),
                           ('count', ['count', 4, 2]), ('tseitin', ['tseitin', 'first', 'complete', 4])):
             cs.append({'lvl': 'text', 'cmd': cmd, 'argv': argv, 'bigfiles': {}, 'flags': fl})
+    # a header value (the name of a graph file) with line breaks of every kind
+    # followed by text that looks like a constraint / a clause: both tools must
+    # keep it inside their comments
+    for brk in ('\r', '\n', '\r\n', '\x0c', '\x0b', '\x1c', '\x85', '\u2028'):
+        nm = 'g' + brk + '+1 x1 >= 1 ;' + brk + '1 0' + brk + '* .kthlist'
+        for fl in ([], ['-v']):
+            cs.append({'lvl': 'text', 'cmd': 'kcolor', 'argv': ['kcolor', 2, PLACE + '/' + nm],
+                       'bigfiles': {nm: ('triangles', 2)}, 'flags': fl})
     # clauses with 119..241 literals (row lengths at which a writer may wrap)
     for (p_, n_) in ((70, 50), (120, 0), (0, 119), (121, 0), (200, 40), (120, 121)):
         add('or', ['or', p_, n_])
